@@ -266,6 +266,36 @@ func runFloatConv(p *core.Prog) *core.Result {
 			res.Bad(key, p.Pos(cv.Pos()), fmt.Sprintf("the operand is only known to lie in [%g, %g]: outside the target's range (and for NaN) the result of the Go conversion is implementation-defined (0x8000000000000000 on amd64 for every |f| >= 2^63), where ECMAScript defines ToInt32/ToUint32/... for every finite double and ToIntegerOrInfinity clamps", lo, hi))
 		})
 	}
+	// Result ranges of the clamping conversions: every return value of the functions below lies in the
+	// documented range on every path (the same interval analysis, applied to the returned value in its
+	// return block). A "fast path" added in front of the clamp breaks it.
+	for _, rr := range []struct {
+		name   string
+		lo, hi float64
+		why    string
+	}{
+		{"toLength", 0, 9007199254740991, "ToLength clamps to [0, 2^53-1]: every caller indexes, allocates or loops with the result"},
+	} {
+		fn, err := p.GojaFunc(rr.name)
+		if err != nil {
+			return res.Fail(err)
+		}
+		k := 0
+		for _, b := range fn.Blocks {
+			ret, ok := b.Instrs[len(b.Instrs)-1].(*ssa.Return)
+			if !ok || len(ret.Results) != 1 {
+				continue
+			}
+			k++
+			key := fmt.Sprintf("%s:return#%d within [%g, %g]", rr.name, k, rr.lo, rr.hi)
+			lo, hi := ival(ret.Results[0], b, 0)
+			if lo >= rr.lo && hi <= rr.hi {
+				res.OK(key, p.Pos(ret.Pos()), fmt.Sprintf("[%g, %g]", lo, hi))
+			} else {
+				res.Bad(key, p.Pos(ret.Pos()), fmt.Sprintf("this return can yield a value in [%g, %g], outside [%g, %g] (%s)", lo, hi, rr.lo, rr.hi, rr.why))
+			}
+		}
+	}
 	res.Count("float -> integer conversions", nConv)
 	return res
 }
